@@ -277,3 +277,52 @@ def check_tree(ti: int) -> bool:
     if got != norm(e):
         LAST_DIFF = ('expression does not parse back to the tree that was written', text, repr(got), repr(norm(e))); return False
     return True
+
+
+# ------------------------------------------------------------------------------------------------
+# parameter lists: the grammar allows a comma behind the last parameter; every way of writing a list of n parameters
+# parses to a list of exactly those n parameters in order, and a list written WITHOUT parameters is empty whatever
+# was parsed before in the same process (parse history)
+CALLS = [('::f(%s)', 'FunctionInvocationNode'), ('bridge ARCH::g(%s)', 'BridgeInvocationNode'), ('K::cop(%s)', 'ImplicitInvocationNode'),
+         ('a.iop(%s)', 'InstanceInvocationNode'), ('x = ::f(%s)', 'FunctionInvocationNode')]
+
+
+def _param_lists(n):
+    out = []
+
+    def walk(x):
+        if isinstance(x, oal.ParameterListNode):
+            out.append([(p.name, p.expression.value) for p in x.children])
+        for c in getattr(x, 'children', None) or []:
+            if c is not None and not isinstance(c, str):
+                walk(c)
+    walk(n)
+    return out
+
+
+def check_params(ci: int, n1: int, t1: int, n2: int, t2: int, cj: int) -> bool:
+    """
+    pre: 0 <= ci < 5 and 0 <= cj < 5 and 0 <= n1 <= 3 and 0 <= n2 <= 3 and 0 <= t1 <= 1 and 0 <= t2 <= 1
+    post: POST(_)
+    """
+    global LAST_DIFF
+    ci = cs(ci, 0, 4); cj = cs(cj, 0, 4); n1 = cs(n1, 0, 3); n2 = cs(n2, 0, 3); t1 = cs(t1, 0, 1); t2 = cs(t2, 0, 1)
+    with notrace():
+        def lst(n, trailing):
+            s = ', '.join('p%d: %d' % (k, k + 10) for k in range(n))
+            return s + (',' if trailing and n else '')
+        first = '%s;\n' % (CALLS[ci][0] % lst(n1, t1))
+        second = '%s;\n%s;\n' % (CALLS[cj][0] % lst(n2, t2), CALLS[ci][0] % '')
+        exp1 = [[('p%d' % k, str(k + 10)) for k in range(n1)]]
+        exp2 = [[('p%d' % k, str(k + 10)) for k in range(n2)], []]
+        try:
+            got1 = _param_lists(oal.parse(first))
+            got2 = _param_lists(oal.parse(second))
+        except oal.ParseException as e:
+            LAST_DIFF = ('parameter list rejected', first, second, str(e)); case('params', ci, n1, t1, n2, t2, cj); return False
+    case('params', ci, n1, t1, n2, t2, cj)
+    if got1 != exp1:
+        LAST_DIFF = ('parameter list', first, got1, exp1); return False
+    if got2 != exp2:
+        LAST_DIFF = ('parameter lists of the second text (parsed after %r)' % first, second, got2, exp2); return False
+    return True
